@@ -26,7 +26,6 @@ func c08WaitFor(cond func() bool) bool {
 
 func c08Directed(c *Ctx) {
 	rep := c.Rep
-	reactive.VerifHook = nil
 	oldDelay := reactive.WriteThenReadDelay
 	reactive.WriteThenReadDelay = 0
 	defer func() { reactive.WriteThenReadDelay = oldDelay }()
